@@ -24,7 +24,7 @@ import (
 	"verif/internal/model"
 )
 
-const rule = "part 1 (exhaustive): every signing-type code and every crypto-type code 0..65535 through every size lookup (two maps + constants in key_certificate, GetKeySizes/GetSigningKeySize/GetCryptoKeySize/GetSignatureSize, KeyCertificate.{SignatureSize,SigningPublicKeySize,CryptoSize,CryptoPublicKeySize}, signature.SignatureSize, offline_signature.{SigningPublicKeySize,SignatureSize}) plus behavioural probes (LeaseSet2.Validate on a key of that type with right/wrong length, ReadEncryptedLeaseSet and ReadOfflineSignature framing with that type): all answers must agree with each other, and with the specification table for the codes it defines (reserved codes: mutual agreement only). part 2 (generated): identities of every supported (signing, crypto) pair with arbitrary key, padding and certificate bytes through the parser and the constructor: key bytes at [0,cs) and [384-ss,384), padding exactly between, declared sizes = lengths of the keys returned. Non-trivial: code known to at least one table, or an identity with non-empty padding; distinct by code / identity bytes."
+const rule = "part 1 (exhaustive): every signing-type code and every crypto-type code 0..65535 through every size lookup (two maps + constants in key_certificate, GetKeySizes/GetSigningKeySize/GetCryptoKeySize/GetSignatureSize, KeyCertificate.{SignatureSize,SigningPublicKeySize,CryptoSize,CryptoPublicKeySize}, signature.SignatureSize, offline_signature.{SigningPublicKeySize,SignatureSize}) plus behavioural probes (LeaseSet2.Validate on a key of that type with right/wrong length, ReadEncryptedLeaseSet and ReadOfflineSignature framing with that type): all answers must agree with each other, and with the specification table for the codes it defines (reserved codes: mutual agreement only). part 2 (generated): identities of every supported (signing, crypto) pair with arbitrary key, padding and certificate bytes through the parser, the constructor and the two key-type-specific readers (which must accept their own pair and, for whatever else they accept, obey the same layout): key bytes at [0,cs) and [384-ss,384), padding exactly between, declared sizes = lengths of the keys returned. Non-trivial: code known to at least one table, or an identity with non-empty padding; distinct by code / identity bytes."
 
 func TestMain(m *testing.M) { ev.Main(m, "C10", rule) }
 
@@ -335,6 +335,40 @@ func checkLayout(c LayoutCase, r *ev.Rec) error {
 	if err := verify("parser", k); err != nil {
 		return err
 	}
+	// key-type-specific readers: whatever they accept obeys the same layout, with the
+	// key lengths the certificate declares; their own pair is accepted
+	for _, fr := range []struct {
+		name   string
+		f      func([]byte) (*keys_and_cert.KeysAndCert, []byte, error)
+		st, et int
+	}{
+		{"ReadKeysAndCertElgAndEd25519", keys_and_cert.ReadKeysAndCertElgAndEd25519, 7, 0},
+		{"ReadKeysAndCertX25519AndEd25519", keys_and_cert.ReadKeysAndCertX25519AndEd25519, 7, 4},
+	} {
+		fk, frem, ferr := fr.f(append(append([]byte{}, enc...), 0xAA, 0xBB))
+		own := id.Cert.Type == 5 && id.SigType == fr.st && id.EncType == fr.et
+		if ferr != nil {
+			if own {
+				return fmt.Errorf("%s rejected an identity of its own key types: %v", fr.name, ferr)
+			}
+			r.Class("fixed-reader:rejected")
+			continue
+		}
+		if fk == nil || fk.KeyCertificate == nil {
+			return fmt.Errorf("%s returned neither a value nor an error", fr.name)
+		}
+		if len(frem) != 2 {
+			return fmt.Errorf("%s left %d bytes, want 2", fr.name, len(frem))
+		}
+		if err := verify(fr.name, fk); err != nil {
+			return err
+		}
+		if own {
+			r.Class("fixed-reader:own-pair")
+		} else {
+			r.Class("fixed-reader:accepted-other-pair")
+		}
+	}
 	// constructor path (KEY certificates only)
 	if id.Cert.Type == 5 {
 		k2, err := libkeys.KAC(id)
@@ -363,7 +397,7 @@ func firstDiff(a, b []byte) int {
 
 var propLayout = &ev.Prop[LayoutCase]{Sub: "layout", Quick: 120000, Thorough: 1000000,
 	Gen: func(t *rapid.T) LayoutCase {
-		return LayoutCase{Ident: gen.Ident(t, "id", []int{0, 1, 2, 7, 8, 11}, []int{0, 4, 5, 6, 7})}
+		return LayoutCase{Ident: gen.Ident(t, "id", []int{0, 1, 2, 7, 7, 8, 11}, []int{0, 4, 5, 6, 7})}
 	}, Check: checkLayout}
 
 func TestRegress(t *testing.T)    { propLayout.Regress(t); propCodes.Regress(t) }
